@@ -91,7 +91,7 @@ def tree_engine(mode, tags, kinds, nq, nt):
             "classify": tree_cls(tags, kinds), "nontrivial": tree_nontrivial, "resets": ["scenario"]}
 
 
-CTRL_ACTIONS = ("scenario", "srv", "cstart", "advance", "inject", "watch-errors", "watch-block", "burst-begin", "burst-end",
+CTRL_ACTIONS = ("scenario", "emptyrv", "srv", "cstart", "advance", "inject", "watch-errors", "watch-block", "burst-begin", "burst-end",
                 "settle", "closeroot", "cancel", "end")
 
 
@@ -210,7 +210,8 @@ PROPS = {
         "assumptions": ["no parent events in flight at the Refilter (stepwise regime)"],
     },
     "C08": {
-        "engines": [tree_engine("step,step,burst", ("C08", "C06"), FSUB_KINDS + ("root", "sub", "clone", "mon"), 1200, 20000)],
+        "engines": [tree_engine("step,step,burst", ("C08", "C06"), FSUB_KINDS + ("root", "sub", "clone", "mon"), 1200, 20000),
+                    ctrl_engine("", ("C08",), 300, 6000)],
         "rule": "tree engine: half of the scenarios hold the first list (gate) and attach / Refilter(equal) / Refilter(new) / server "
                 "changes before releasing it, in random orders, immediate and deferred variants at every depth; Events() is drained "
                 "before Ready() is looked at; a node observed ready must already hold its filtered parent content; a deferred node "
